@@ -8,15 +8,25 @@
      Alternative[U]  :: [empty]  |  Alternative[?U] Term[?U]
      Term[U]         :: Assertion[?U]  |  Atom[?U]  |  Atom[?U] Quantifier
         Annex B [~U]:   QuantifiableAssertion Quantifier | Assertion[~U] | ExtendedAtom Quantifier | ExtendedAtom
-     Assertion[U]    :: `^` | `$` | `(?=` Disjunction `)` | `(?!` Disjunction `)` | `(?<=` Disjunction `)` | `(?<!` Disjunction `)`
-        Annex B [~U]:   `^` | `$` | QuantifiableAssertion | `(?<=` Disjunction `)` | `(?<!` Disjunction `)`
-        (`\b` `\B` are not in the fragment)
+     Assertion[U]    :: `^` | `$` | `\b` | `\B` | `(?=` Disjunction `)` | `(?!` Disjunction `)` | `(?<=` Disjunction `)` | `(?<!` Disjunction `)`
+        Annex B [~U]:   `^` | `$` | `\b` | `\B` | QuantifiableAssertion | `(?<=` Disjunction `)` | `(?<!` Disjunction `)`
+        (the escapes are written with a backslash)
      QuantifiableAssertion :: `(?=` Disjunction[~U] `)` | `(?!` Disjunction[~U] `)`
      Quantifier      :: QuantifierPrefix  |  QuantifierPrefix `?`
      QuantifierPrefix:: `*` | `+` | `?`
-     Atom[U]         :: PatternCharacter | `.` | `(` Disjunction[?U] `)` | `(?:` Disjunction[?U] `)`
+     Atom[U]         :: PatternCharacter | `.` | `\` AtomEscape[?U] | `(` Disjunction[?U] `)` | `(?:` Disjunction[?U] `)`
                         (GroupSpecifier is [empty]: no named groups in the fragment)
-     ExtendedAtom    :: `.` | `(` Disjunction[~U] `)` | `(?:` Disjunction[~U] `)` | ExtendedPatternCharacter
+     ExtendedAtom    :: `.` | `\` AtomEscape[~U] | `(` Disjunction[~U] `)` | `(?:` Disjunction[~U] `)` | ExtendedPatternCharacter
+     AtomEscape[U]   :: CharacterClassEscape | CharacterEscape[?U]          (no DecimalEscape, no `k` GroupName)
+     CharacterClassEscape :: one of d D s S w W                             (no property escapes)
+     CharacterEscape[U]   :: ControlEscape | IdentityEscape[?U]             (no c-letter, 0, hex, unicode, legacy octal)
+     ControlEscape   :: one of f n r t v
+     IdentityEscape[U] :: [+U] SyntaxCharacter | [+U] `/`
+        Annex B [~U]:   SourceCharacterIdentityEscape[~N] :: SourceCharacter but not `c`
+                        (without u the fragment has no group names, so the [N] parameter is absent)
+     Annex B resolves its ambiguities by the order of the alternatives ("each alternative is considered only if
+     previous production alternatives do not match"): backslash-b and backslash-B are matched by Assertion, which
+     precedes ExtendedAtom in Term, so they are never atoms (side condition of At_escape).
      SyntaxCharacter :: one of ^ $ \ . * + ? ( ) [ ] { } |
      PatternCharacter:: SourceCharacter but not SyntaxCharacter
      ExtendedPatternCharacter :: SourceCharacter but not one of ^ $ \ . * + ? ( ) [ |
@@ -29,7 +39,7 @@ Definition g_caret := 94. Definition g_dollar := 36. Definition g_backslash := 9
 Definition g_star := 42. Definition g_plus := 43. Definition g_question := 63. Definition g_lparen := 40.
 Definition g_rparen := 41. Definition g_lbracket := 91. Definition g_rbracket := 93. Definition g_lbrace := 123.
 Definition g_rbrace := 125. Definition g_bar := 124. Definition g_colon := 58.
-Definition g_equals := 61. Definition g_bang := 33. Definition g_less := 60.
+Definition g_equals := 61. Definition g_bang := 33. Definition g_less := 60. Definition g_slash := 47.
 
 Definition syntax_character (c : N) : bool :=
   existsb (N.eqb c) [g_caret; g_dollar; g_backslash; g_dot; g_star; g_plus; g_question; g_lparen; g_rparen;
@@ -40,6 +50,16 @@ Definition extended_pattern_character (c : N) : bool :=
 (* the single-character atom: PatternCharacter with [+U], ExtendedPatternCharacter with [~U] (Annex B) *)
 Definition pattern_char (u : bool) (c : N) : bool :=
   if u then negb (syntax_character c) else extended_pattern_character c.
+
+Definition character_class_escape (c : N) : bool := existsb (N.eqb c) [100; 68; 115; 83; 119; 87].  (* d D s S w W *)
+Definition control_escape (c : N) : bool := existsb (N.eqb c) [102; 110; 114; 116; 118].           (* f n r t v *)
+Definition identity_escape (u : bool) (c : N) : bool :=
+  if u then syntax_character c || (c =? g_slash) else negb (c =? 99).                              (* not c *)
+Definition assertion_escape (c : N) : bool := (c =? 98) || (c =? 66).                              (* b B *)
+Inductive AtomEscape (u : bool) : list N -> Prop :=
+| AE_class c : character_class_escape c = true -> AtomEscape u [c]
+| AE_control c : control_escape c = true -> AtomEscape u [c]
+| AE_identity c : identity_escape u c = true -> AtomEscape u [c].
 
 Inductive QuantifierPrefix : list N -> Prop :=
 | QP_star : QuantifierPrefix [g_star]
@@ -63,6 +83,8 @@ with Term (u : bool) : list N -> Prop :=
 with Assertion (u : bool) : list N -> Prop :=
 | As_caret : Assertion u [g_caret]
 | As_dollar : Assertion u [g_dollar]
+| As_word_boundary : Assertion u [g_backslash; 98]
+| As_not_word_boundary : Assertion u [g_backslash; 66]
 | As_lookahead a : QuantifiableAssertion u a -> Assertion u a
 | As_lookbehind d : Disjunction u d -> Assertion u (g_lparen :: g_question :: g_less :: g_equals :: d ++ [g_rparen])
 | As_neg_lookbehind d : Disjunction u d -> Assertion u (g_lparen :: g_question :: g_less :: g_bang :: d ++ [g_rparen])
@@ -72,6 +94,7 @@ with QuantifiableAssertion (u : bool) : list N -> Prop :=   (* the two look-ahea
 with Atom (u : bool) : list N -> Prop :=
 | At_char c : pattern_char u c = true -> Atom u [c]
 | At_dot : Atom u [g_dot]
+| At_escape c : AtomEscape u [c] -> assertion_escape c = false -> Atom u [g_backslash; c]
 | At_group d : Disjunction u d -> Atom u (g_lparen :: d ++ [g_rparen])
 | At_noncapturing d : Disjunction u d -> Atom u (g_lparen :: g_question :: g_colon :: d ++ [g_rparen]).
 
